@@ -105,7 +105,7 @@ def _dt(c):
     return np.datetime64("2020-01-01") + np.timedelta64(int(c[1]), "D")
 
 
-def pd_index(labels: List[Any], name: Any = None):
+def pd_index(labels: List[Any], name: Any = None, pdtype: Optional[str] = None):
     """labels: list of abstract values, or list of lists (MultiIndex levels per row)."""
     import pandas as pd
 
@@ -114,7 +114,11 @@ def pd_index(labels: List[Any], name: Any = None):
         names = name if isinstance(name, list) else None
         return pd.MultiIndex.from_tuples(tuples, names=names)
     n = len(labels)
-    if all(l[0] == "i" for l in labels):
+    if pdtype == "float64":
+        ix = pd.Index([val(l, float("nan")) for l in labels], dtype="float64")
+    elif pdtype == "object":
+        ix = pd.Index([val(l, None) for l in labels], dtype="object")
+    elif all(l[0] == "i" for l in labels):
         ints = [l[1] for l in labels]
         if ints == list(range(n)):
             ix = pd.RangeIndex(n)
@@ -133,7 +137,7 @@ def pd_series(f: Dict[str, Any]):
     import pandas as pd
 
     name = None if is_na(f["name"]) else val(f["name"])
-    return pd.Series(pd_array(f["pd"], f["cells"]), index=pd_index(f["idx"], _idxname(f)), name=name)
+    return pd.Series(pd_array(f["pd"], f["cells"]), index=pd_index(f["idx"], _idxname(f), f.get("idxpd")), name=name)
 
 
 def _idxname(f: Dict[str, Any]):
@@ -149,7 +153,7 @@ def pd_frame(fr: Dict[str, Any]):
     """frame: {cols:[{name,pd,cells}], idx:[...], idxname?}; duplicate labels allowed."""
     import pandas as pd
 
-    idx = pd_index(fr["idx"], _idxname(fr))
+    idx = pd_index(fr["idx"], _idxname(fr), fr.get("idxpd"))
     cols = fr["cols"]
     if not cols:
         return pd.DataFrame(index=idx)
@@ -203,8 +207,39 @@ def series_schema(s: Dict[str, Any]):
         unique=bool(s["unique"]),
         report_duplicates=s["report"],
         name=None if is_na(s["name"]) else val(s["name"]),
+        **_series_index(s),
         **_parse_opts(s),
     )
+
+
+def _series_index(s: Dict[str, Any]) -> Dict[str, Any]:
+    ix = s.get("index")
+    if isinstance(ix, dict) and ("dtype" in ix or "levels" in ix):
+        return {"index": index_schema(ix)}
+    return {}
+
+
+def strip(s: Dict[str, Any]) -> Dict[str, Any]:
+    """the abstract schema with every parsing option switched off (mirrors Strip in the spec)"""
+    import copy
+
+    t = copy.deepcopy(s)
+    t["coerce"] = False
+    t["drop"] = False
+    if "default" in t:
+        t["default"] = ["na", 0]
+    if isinstance(t.get("index"), dict) and "coerce" in t["index"]:
+        t["index"]["coerce"] = False
+    if "cols" in t:
+        for c in t["cols"]:
+            c["coerce"] = False
+            c["default"] = ["na", 0]
+            if "drop" in c:
+                c["drop"] = False
+        t["addmiss"] = False
+        if t.get("strict") == "filter":
+            t["strict"] = "yes"
+    return t
 
 
 def _parse_opts(s: Dict[str, Any]) -> Dict[str, Any]:
